@@ -136,6 +136,31 @@ Theorem C03_converter_order :
 Proof. exact ex_prio_converters. Qed.
 Print Assumptions C03_converter_order.
 
+(* StateMachineMatcher.match._match, regenerated from the source on every run (T2): the three rule loops
+   (rules of the state when parts == []; rules behind the "" transition; rules of the state when parts == [""])
+   as decision functions g_step_here / g_step_slash / g_step_late over (the converters accept, rule.strict_slashes,
+   rule.methods is not None, method in rule.methods, rule.websocket == websocket), with the actions continue /
+   have_match_for.update / websocket_mismatch = True / return / raise SlashRequired.  The model's loops take, rule
+   by rule, exactly these actions; an edit of a test or a branch in the source changes the generated definition. *)
+Theorem C03_match_loops_regenerated : forall m meth ws r vals,
+  let cs k := cand_step rule (list (str * value)) rmethods r_websocket (rstrict m) rconvert meth ws (k, r, vals) in
+  let g f := f (conv_ok r vals) (rstrict m r) (has_methods r) (in_methods r meth) (Bool.eqb (r_websocket r) ws) in
+  action_of_step (cs (KHere)) = g g_step_here
+  /\ action_of_step (cs (KSlash)) = g g_step_slash
+  /\ action_of_step (cs (KLate)) = g g_step_late.
+Proof. exact match_loops_regenerated. Qed.
+Print Assumptions C03_match_loops_regenerated.
+
+(* ... the order of the blocks of _match (base case, static transition before the dynamic ones, late clause last;
+   in the base case the rules of the state before the rules behind the "" transition) and the tests of the
+   merge_slashes second pass of match() *)
+Theorem C03_match_blocks_regenerated :
+  g_match_blocks = [1; 2; 3; 4; 9] /\ g_base_blocks = [5; 6; 9]
+  /\ (forall merge rv_none, g_second_pass merge rv_none = merge && rv_none)
+  /\ (forall rv_none rule_merge, g_second_nomatch rv_none rule_merge = rv_none || negb rule_merge).
+Proof. exact match_blocks_regenerated. Qed.
+Print Assumptions C03_match_blocks_regenerated.
+
 (* the regex texts, weights and part_isolating flags of the current source are the ones the
    language predicates and the priority order of the model stand for *)
 Theorem C03_patterns_pinned :
